@@ -823,3 +823,39 @@ def T8_lifecycle_results(ctx):
             if sum(1 for e in pu if mentions(e.d['args'][1], r)) >= 2:
                 okd = True
     ctx.ob('T8', d, 'drained-balances-and-transitions-collected', okd, '', site=d.loc(d.b['lo']))
+
+
+def core_short(n):
+    import core
+    return core.short_fn(n)
+
+
+def T9_transitions_forwarded(ctx):
+    """wherever a function holds transitions and a transition state exists, the transitions reach it (and pending ones reach the bundle)"""
+    facts = ctx.facts
+    sinks = ('::add_transitions', '::apply_transitions_and_create_reverts', '::parallel_apply_transitions_and_create_reverts')
+    n = 0
+    bad = []
+    for b in facts.production():
+        if b['kind'] not in ('fn', 'assoc') or 'transition_state' not in json.dumps(b['blocks']):
+            continue
+        f = ctx.fn(b)
+        try:
+            ps = [p for p in feasible(f.paths(budget=50000)) if p.end == 'return']
+        except PathBudget:
+            continue
+        seen = False
+        for p in ps:
+            facts_ = [of for of in (option_fact(a) for a in p.events if a.kind == 'atom') if of and of[1] in ('Some', 'None') and mentions_field(of[0], 'transition_state')]
+            if not facts_:
+                continue
+            if facts_[-1][1] == 'Some':
+                seen = True
+                if not [e for e in p.events if e.kind == 'call' and e.d['callee'].endswith(sinks)]:
+                    bad.append(core_short(b['fn']))
+        if seen:
+            n += 1
+    ctx.count('T9.transition-forwarding-sites', n)
+    ctx.ob('T9', 'parallel_state::ParallelState', 'transitions-reach-the-transition-state-whenever-there-is-one', n >= 3 and not bad,
+           f'sites={n}; ' + '; '.join(sorted(set(bad))[:4]),
+           what='commit, increment/drain balances, apply_transition and the two merge/take paths hand their transitions on under no other condition than "a transition state exists"; a dropped transition is a change the bundle and its reverts never see')
